@@ -11,22 +11,25 @@ for d in sorted(glob.glob("/verif/seeded/*")):
     if os.path.exists(d + "/agent_meta.json"):
         try: agent = json.load(open(d + "/agent_meta.json"))
         except Exception: agent = {}
-    prop = agent.get("property", sid[:3])
+    prop = agent.get("property", sid[:3])[:3]
     props = [prop]
     extra = {"C01": ["C09"], "C08": ["C04"], "C03": ["C02"], "C13": ["C15"]}.get(prop, [])
-    if subprocess.run(["git", "-C", "/repo", "status", "--porcelain", "--untracked-files=no"], capture_output=True, text=True).stdout.strip():
-        print("/repo not clean"); sys.exit(2)
-    r = subprocess.run(["git", "-C", "/repo", "apply", d + "/patch.diff"], capture_output=True, text=True)
-    if r.returncode != 0:
-        print(sid, "patch does not apply", r.stderr[:200]); continue
+    wt = "/tmp/govc_seed_eval_wt"
+    subprocess.run(["git", "-C", "/repo", "worktree", "remove", "--force", wt], capture_output=True)
+    subprocess.run(["git", "-C", "/repo", "worktree", "add", "--detach", "-f", wt, "HEAD", "-q"], check=True)
     results = {}
     try:
+        r = subprocess.run(["git", "-C", wt, "apply", d + "/patch.diff"], capture_output=True, text=True)
+        if r.returncode != 0:
+            print(sid, "patch does not apply", r.stderr[:200]); continue
         for p in props + extra:
-            out = subprocess.run(["/verif/bin/govc", "check", p], capture_output=True, text=True, env=env, cwd="/verif")
+            out = subprocess.run(["/verif/bin/govc", "check", p, "--repo", wt, "--noevidence"], capture_output=True, text=True, env=env, cwd="/verif")
             fails = [l.split()[1] for l in out.stdout.splitlines() if l.startswith("FAILED-OBLIGATION")]
-            results[p] = {"exit": out.returncode, "violation_lines": sum(1 for l in out.stdout.splitlines() if l.startswith("VIOLATION")), "failed_obligations": fails[:8]}
+            vl = [l for l in out.stdout.splitlines() if l.startswith("VIOLATION")]
+            results[p] = {"exit": out.returncode, "violation_lines": len(vl), "replay_confirmed": sum(1 for l in vl if "no-failing-input-found" not in l), "failed_obligations": fails[:8]}
     finally:
-        subprocess.run(["git", "-C", "/repo", "checkout", "--", "."])
+        subprocess.run(["git", "-C", "/repo", "worktree", "remove", "--force", wt], capture_output=True)
+        subprocess.run(["git", "-C", "/repo", "worktree", "prune"], capture_output=True)
     caught = results.get(prop, {}).get("exit") == 1 and results[prop]["violation_lines"] > 0
     meta = {
         "id": sid, "property": prop,
@@ -37,6 +40,7 @@ for d in sorted(glob.glob("/verif/seeded/*")):
         "checks_run": results,
         "caught": caught,
         "caught_by": results.get(prop, {}).get("failed_obligations", []),
+        "replay_confirmed_violations": results.get(prop, {}).get("replay_confirmed", 0),
     }
     json.dump(meta, open(d + "/meta.json", "w"), indent=1)
     print(sid, "caught" if caught else "MISSED", results.get(prop, {}).get("failed_obligations", [])[:3])
